@@ -598,7 +598,7 @@ class PortAlloc:
 # ------------------------------------------------------------------------------------------------ processes / files
 def cli_env():
     e = dict(os.environ)
-    e['ASAN_OPTIONS'] = 'detect_leaks=0:abort_on_error=0:allocator_may_return_null=1'
+    e['ASAN_OPTIONS'] = 'detect_leaks=0:abort_on_error=0:allocator_may_return_null=1:max_allocation_size_mb=1024'
     e['UBSAN_OPTIONS'] = 'print_stacktrace=1'
     e.pop('LD_PRELOAD', None)
     return e
